@@ -11,6 +11,7 @@ import RV.Base.Proto
     sbind P N ov
     cq m U g | cqs m U g | qname m U | qstrict m U | curie m U g | n3 m U | expand S | reset m
     parse m P N P N …  | parsexml m P N P N … | ser m S P O
+    serdoc m U g U g …                   -> doc <d>n …> (document prefix table), then reset m
 
   Output of every operation:  `<out>|L <p>n sorted>|P <p>n lookups>|N <n>p lookups>`
   with strings printed raw, None as `~`.
@@ -52,6 +53,7 @@ def showOut : Out → String
   | .qn p n l => "qn " ++ raw p ++ ">" ++ raw n ++ ">" ++ raw l
   | .str s => "s " ++ raw s
   | .err e => "err " ++ showErr e
+  | .doc t => "doc " ++ " ".intercalate (sortStrs (t.map (fun pn => raw pn.1 ++ ">" ++ raw pn.2)))
 
 def dedup (l : List Str) : List Str := l.foldl (fun acc x => if acc.contains x then acc else acc ++ [x]) []
 
@@ -71,6 +73,13 @@ def pairs? : List String → Option (List (Option Str × Str))
     let p ← ostr? p; let n ← str? n; let r ← pairs? r
     pure ((p, n) :: r)
 
+def ugs? : List String → Option (List (Str × Bool))
+  | [] => some []
+  | [_] => none
+  | u :: g :: r => do
+    let u ← str? u; let g ← bool? g; let r ← ugs? r
+    pure ((u, g) :: r)
+
 def parseOp : List String → Option Op
   | ["minit", m, b] => do pure (.minit (← bool? m) (← bset? b))
   | ["bind", m, p, n, ov, rp] => do pure (.bind (← bool? m) (← ostr? p) (← str? n) (← bool? ov) (← bool? rp))
@@ -89,6 +98,7 @@ def parseOp : List String → Option Op
     let ps ← ps.mapM (fun pn => pn.1.map (fun p => (p, pn.2)))
     pure (.parse (← bool? m) ps)
   | "parsexml" :: m :: r => do pure (.parsexml (← bool? m) (← pairs? r))
+  | "serdoc" :: m :: r => do pure (.serdoc (← bool? m) (← ugs? r))
   | _ => none
 
 def vocab? (ws : List String) : Option (List Str × List Str) :=
